@@ -6,6 +6,7 @@
 #include <stdio.h>
 #include <string>
 #include <vector>
+#include <map>
 
 namespace xs {
 
@@ -95,6 +96,7 @@ extern Shared* SH;
 // coverage bitmap: persistent across the runs of one worker
 extern uint8_t* g_cov;      // one byte per guard
 extern uint32_t g_cov_n;
+void coverage_by_function(std::map<std::string, std::pair<int, int>>& out);   // name -> (covered, total) edges
 
 // ---------------------------------------------------------------- log
 void logf(const char* fmt, ...) __attribute__((format(printf, 1, 2)));
